@@ -608,6 +608,8 @@ class SQLParser:
     @classmethod
     def _parse_in_parenthesis(cls, scanner: TokenScanner, sql_type: SQLType) -> NodeElementLevel:
         """解析 IN 关键字后的插入语：插入语可能为子查询或值表达式"""
+        if not scanner.search_one_type_mark(AMTMark.PARENTHESIS):
+            raise SqlParseError(f"IN 关键字之后不是插入语: {scanner}")
         if scanner.get_as_children_scanner().search_one_type_set_use_upper({"SELECT", "WITH"}):
             return cls._parse_sub_query_expression(scanner, sql_type=sql_type)
         return cls._parse_sub_value_expression(scanner, sql_type=sql_type)
@@ -899,6 +901,8 @@ class SQLParser:
             is_not = scanner.search_and_move_one_type_set_use_upper(static.get_not_operator_set(sql_type))
 
             if scanner.is_finish:
+                if is_not:
+                    raise SqlParseError(f"NOT 之后缺少关键字条件表达式: {scanner}")
                 return before_value  # 如果已经匹配结果，则直接返回
 
             next_ch = scanner.get_as_source_or_null().upper()
@@ -956,6 +960,8 @@ class SQLParser:
                 )
             else:
                 # 没有关键字表达式，直接返回按位或表达式或更低等级表达式
+                if is_not:
+                    raise SqlParseError(f"NOT 之后缺少关键字条件表达式: {scanner}")
                 return before_value
 
         # 如果后续是连续的关键字条件表达式的关键字，则将当前关键字表达式作为下一个关键字表达式的 before_value 继续解析
